@@ -1091,16 +1091,6 @@ func (gs *GossipSubRouter) handleGraft(p peer.ID, ctl *pb.ControlMessage) []*pb.
 			continue
 		}
 
-		// we don't GRAFT peers we have no outbound stream to: we can't send them
-		// anything, and nothing would remove them from the mesh when they leave
-		// (mesh cleanup is driven by the closing of the outbound stream).
-		if _, connected := gs.peers[p]; !connected {
-			gs.logger.Debug("GRAFT: ignoring request from peer without outbound stream", "peer", p, "topic", topic)
-			prune = append(prune, topic)
-			doPX = false
-			continue
-		}
-
 		// we don't GRAFT to/from direct peers; complain loudly if this happens
 		_, direct := gs.direct[p]
 		if direct {
@@ -1129,6 +1119,16 @@ func (gs *GossipSubRouter) handleGraft(p peer.ID, ctl *pb.ControlMessage) []*pb.
 			// refresh the backoff
 			gs.addBackoff(p, topic, false)
 			prune = append(prune, topic)
+			continue
+		}
+
+		// we don't GRAFT peers we have no outbound stream to: we can't send them
+		// anything, and nothing would remove them from the mesh when they leave
+		// (mesh cleanup is driven by the closing of the outbound stream).
+		if _, connected := gs.peers[p]; !connected {
+			gs.logger.Debug("GRAFT: ignoring request from peer without outbound stream", "peer", p, "topic", topic)
+			prune = append(prune, topic)
+			doPX = false
 			continue
 		}
 
